@@ -796,6 +796,12 @@ def run(chk):
                         cases.append((b, elt, list(mask), False, st1))
     if only in (None, "subview"):
         chk.add_results("subview_pointer", pmap(case_subview, cases, chunks=2))
+    if only in (None, "alloc"):
+        # the byte size memref-to-snax computes from the same bound / step IR: covers the last byte of every element,
+        # layout offset included (the obligation of C11, on a few layouts)
+        from .c11 import case_size
+
+        chk.add_results("allocation_size_from_bound_and_step_ops", pmap(case_size, [("tsl", b_, w_) for b_ in ([[4]], [[2, 4]], [[2, 2], [2, 4]], [[None, 4]]) for w_ in (8, 32)], chunks=2))
     chk.outside = [
         "rank > 4, tile depth > 3, tile bounds outside the enumerated set",
         "subview offsets that are not multiples of the inner tile product in convert-memref-to-arith",
